@@ -554,6 +554,14 @@ def persistence(ck, agg, nn):
             if not leases:
                 continue
             nleases += 1
+            # R16.10 "save/load cycles never leave two IDs on one address": the live table may have moved on since the file was written
+            # (the address released and leased to another ID), so every entry a file installs evicts whoever holds that address now -
+            # set_address(.., search_by_address=True), whose effect R16.8 establishes - in both file formats alike
+            for le in leases:
+                flag = le.data[2].get("search_by_address", le.data[3][0] if le.data[3] else None)
+                okf = flag is not None and const_of(norm(flag)) is True
+                agg.add("R16.10", f_load, "an entry loaded from a file evicts the current holder of its address (both formats)", okf,
+                        "as_bin=%r: set_address() is called with search_by_address=%r - loading {2: 0o5} into a live table {6: 0o5} leaves IDs 2 and 6 on one address" % (as_bin, flag), le.node)
             if as_bin:
                 if w_id is None:
                     continue
@@ -616,6 +624,12 @@ def run(ck):
             for loop, stmt, what, ok in iter_mutation_sites(f.node):
                 agg.add("R16.7", f, "the lease table is not resized while it is being iterated", ok,
                         "%s (line %d) and the loop can go on to its next iteration" % (what, stmt.lineno), stmt)
+    # the master serves what update() reports: a request merely passing through must not be reported (R13.6, shared with C13); and the
+    # lease table is per-object state (R09.5, shared with C09)
+    from . import c13, c09
+    from .radio import Radio
+    c13.receive_rule(ck, agg, net.NetNode(ck, "rf24_network", "RF24Network"))
+    c09.no_leak(ck, agg, [Radio(ck)])
     agg.flush()
     ck.floor("R16.7", "methods scanned for iterate-and-resize", n5, 20)
     ck.floor("R16.1", "relay scenarios", n1, 7)
